@@ -35,13 +35,27 @@ From F8 Require Import Sess.Bytes Sess.Msg Sess.Persist Sess.Session.
 Import ListNotations.
 Local Open Scope N_scope.
 
-(* one call of an application thread *)
+(* One call of an application thread.  The PUBLIC send entry points of Session (include/fix8/session.hpp) and the
+   atomic step each of them is in pm_thread / pm_coro -- every one of them reaches send_process through FIXWriter and
+   takes FIXWriter::_con_spl first, so every one is ONE critical section; a path into send_process that does not take
+   the lock contradicts this model and shows up in the tie as numbers used twice / skipped:
+     send(Message*, destroy, custom_seqnum, no_increment)  -> Connection::write(Message*, destroy) -> FIXWriter::write(Message*, bool)
+                                                              = { guard(_con_spl); send_process }            CSend   (destroy only
+                                                              decides who deletes the message afterwards: not observable here)
+     send(Message&, custom_seqnum, no_increment)           -> Connection::write(Message&) -> FIXWriter::write(Message&)
+                                                              = { guard(_con_spl); send_process }            CSendRef
+     send_batch(vector<Message*>, destroy)                 -> Connection::write_batch -> FIXWriter::write_batch
+                                                              = size 0 / size 1 -> write / { guard(_con_spl); loop } CBatch
+   (send_process itself is public too -- "called from the connection" -- but is not an application entry point.)
+   In pm_pipeline send(Message* ..) and send_batch push to the queue (see below) and FIXWriter::write(Message&) throws
+   f8Exception("cannot send message directly if pipelining"): nothing is queued, the caller gets the exception. *)
 Inductive call :=
 | CSend (m : msg) (custom : N) (noinc : bool)        (* Session::send(Message*, destroy, custom_seqnum, no_increment) *)
+| CSendRef (m : msg) (custom : N) (noinc : bool)     (* Session::send(Message&, custom_seqnum, no_increment) *)
 | CBatch (l : list msg).                             (* Session::send_batch(vector, destroy) *)
 
 Definition call_msgs (c : call) : list msg :=
-  match c with CSend m _ _ => [m] | CBatch l => l end.
+  match c with CSend m _ _ => [m] | CSendRef m _ _ => [m] | CBatch l => l end.
 
 Definition prog_msgs (p : list call) : list msg := flat_map call_msgs p.
 
@@ -100,6 +114,10 @@ Definition tstep (c : tcfg) (t : nat) : tcfg :=
     | CSend m custom noinc =>
       let '(ok, s', evs) := send sc now (t_sess c) m custom noinc in
       mkT s' (t_wire c ++ evs) (upd (t_threads c) t (mkTT rest (rets ++ [if ok then 1 else 0]))) (t_lin c ++ [(t, prep_send m custom noinc)])
+    | CSendRef m custom noinc =>
+      (* the by-reference overload: same flags, same lock, same send_process *)
+      let '(ok, s', evs) := send sc now (t_sess c) m custom noinc in
+      mkT s' (t_wire c ++ evs) (upd (t_threads c) t (mkTT rest (rets ++ [if ok then 1 else 0]))) (t_lin c ++ [(t, prep_send m custom noinc)])
     | CBatch l =>
       let '(n, s', evs) := send_batch sc now (t_sess c) l in
       mkT s' (t_wire c ++ evs) (upd (t_threads c) t (mkTT rest (rets ++ [n]))) (t_lin c ++ map (pair t) (batch_msgs l))
@@ -118,7 +136,8 @@ Inductive actor := Writer | App (t : nat).
    `rest` still to push and `cnt` pushed *)
 Inductive ppc := PIdle | PLocked (rest : list msg) (cnt : N).
 
-Record pthread := mkPT { pt_prog : list call; pt_pc : ppc; pt_rets : list N }.
+(* pt_rets: what the calls returned; None = the call threw (send(Message&) while pipelining) *)
+Record pthread := mkPT { pt_prog : list call; pt_pc : ppc; pt_rets : list (option N) }.
 
 Record pcfg := mkP {
   p_sess : sess;
@@ -147,7 +166,7 @@ Definition app_step (c : pcfg) (t : nat) : pcfg :=
     match pc with
     | PLocked [] cnt =>
       (* leaving write_batch: the guard releases _con_spl, the count is returned *)
-      with_lock (with_thread c t (mkPT prog PIdle (rets ++ [cnt]))) None
+      with_lock (with_thread c t (mkPT prog PIdle (rets ++ [Some cnt]))) None
     | PLocked (m :: r) cnt =>
       (* msg->set_end_of_batch(itr == litr); _msg_queue.try_push(msg); ++result *)
       with_thread (push c t (set_eob (is_last r) m)) t (mkPT prog (PLocked r (cnt + 1)) rets)
@@ -155,9 +174,10 @@ Definition app_step (c : pcfg) (t : nat) : pcfg :=
       match prog with
       | [] => c
       | CSend m custom noinc :: rest =>
-        with_thread (push c t (prep_send m custom noinc)) t (mkPT rest PIdle (rets ++ [1]))
-      | CBatch [] :: rest => with_thread c t (mkPT rest PIdle (rets ++ [0]))
-      | CBatch [m] :: rest => with_thread (push c t m) t (mkPT rest PIdle (rets ++ [1]))
+        with_thread (push c t (prep_send m custom noinc)) t (mkPT rest PIdle (rets ++ [Some 1]))
+      | CSendRef _ _ _ :: rest => with_thread c t (mkPT rest PIdle (rets ++ [None]))     (* throws; nothing queued *)
+      | CBatch [] :: rest => with_thread c t (mkPT rest PIdle (rets ++ [Some 0]))
+      | CBatch [m] :: rest => with_thread (push c t m) t (mkPT rest PIdle (rets ++ [Some 1]))
       | CBatch l :: rest =>
         match p_lock c with
         | None => with_lock (with_thread c t (mkPT rest (PLocked l 0) rets)) (Some t)
